@@ -1,5 +1,6 @@
 import U3.Model.Route
 import U3.Lemmas.Route
+import U3.Lemmas.UrlRoute
 /-!
 # C15 — what goes on the wire is exactly what the URL says
 
@@ -704,5 +705,45 @@ theorem C15_redirect_stale_host_witness :
       (fun r => (r.connect, r.target, r.hostHeader)) =
       some (some (lit "CONNECT x1.y2:443 HTTP/1.1\r\nHost: x1.y2:443\r\n\r\n"), lit "/next", [lit "example.com"]) := by
   decide +kernel
+
+/-! ## the stable shapes are all `parse_url` returns (closes the gap left by `C15_host_stable_partial`) -/
+
+/-- **The pool's second `_normalize_host` leaves the host of every parsed http / https URL alone**,
+except for the `zone25` shape of the known finding `zone-25-prefix-stripped-twice` (a bracketed literal
+whose zone id starts with `25` and goes on, `C15_zone25_witness`): `parse_url` only returns hosts of the
+`StableHost` / `StableZoned` shapes (`C14_parsed_host_shape`; `U3.Lemmas.UrlHost`, `U3.Lemmas.UrlRoute`).
+Contract `IdnaLdh` on the uninterpreted `idna.encode`: answers consist of lower-case letters, digits,
+`-`, `.`. -/
+theorem C15_host_stable_of_parse (idna : Str → Option Str) (hc : Url.IdnaLdh idna) (url : Str) (u : Url.Url)
+    (s hst : Str) (hparse : Url.parseUrlWith idna url = .ok u) (hs : u.scheme = some s)
+    (hsch : s = http ∨ s = https) (hh : u.host = some hst) (h25 : Url.zone25 hst = false) :
+    (StableHost hst ∨ StableZoned hst) ∧ Url.normalizeHost idna (some hst) (some s) = .ok (some hst) :=
+  ⟨stable_of_parse hc hparse hs hsch hh h25,
+   C15_host_stable_partial idna hst s hsch (stable_of_parse hc hparse hs hsch hh h25)⟩
+
+/-- **Connect target, for every URL text a `PoolManager` accepts** (direct route): when the text parses
+to an http / https URL with a host, the port is not an explicit 0 (finding `port-zero-treated-as-absent`)
+and the host has not the `zone25` shape (finding `zone-25-prefix-stripped-twice`), the socket is opened
+to the parsed host text without its brackets and to the URL's port or the scheme default. -/
+theorem C15_connect_target_of_parse (idna : Str → Option Str) (hc : Url.IdnaLdh idna) (extra : PoolKey.Ctx)
+    (url : Str) (u : Url.Url) (r : Route) (s hst : Str)
+    (hparse : Url.parseUrlWith idna url = .ok u) (hs : u.scheme = some s) (hsch : s = http ∨ s = https)
+    (hh : u.host = some hst) (hp0 : u.port ≠ some 0) (h25 : Url.zone25 hst = false)
+    (h : routeWith idna none extra u = .ok r) :
+    r.dialPort = u.port.getD (schemeDefault s) ∧ r.dialHost = dialName (unbracket hst) ∧
+    (hst.head? ≠ some 91 → r.dialHost = hst) ∧
+    (∀ a, hst = 91 :: a ++ [93] → a.head? ≠ some 91 → r.dialHost = a) :=
+  C15_connect_target_stable idna extra u r s hst hs hsch hh hp0 (stable_of_parse hc hparse hs hsch hh h25) h
+
+-- non-vacuity: the IDNA-free oracle keeps the contract; "http://[FE80::1%25eth0]:8080/" parses to host
+-- "[fe80::1%eth0]", which has not the shape of the finding, and is dialled as "fe80::1%eth0", 8080; the
+-- host of the finding, "[::1%25a]", has the shape
+example : Url.IdnaLdh (fun _ => none) := by intro l r h; simp at h
+example : (Url.parseUrl (lit "http://[FE80::1%25eth0]:8080/")).toOption.map (fun u => (u.scheme, u.host, u.port)) =
+    some (some http, some (lit "[fe80::1%eth0]"), some 8080) := by decide +kernel
+example : Url.zone25 (lit "[fe80::1%eth0]") = false ∧ Url.zone25 (lit "[::1%25a]") = true ∧
+    Url.zone25 (lit "example.com") = false := by decide +kernel
+example : (send1 none "http://[FE80::1%25eth0]:8080/").toOption.map (fun r => (r.dialHost, r.dialPort)) =
+    some (lit "fe80::1%eth0", 8080) := by decide +kernel
 
 end U3.Props
